@@ -26,24 +26,78 @@ class PRFStub:
         self._saved = []
 
     def __enter__(self):
+        import hmac as _hmac
+        import hashlib as _hashlib
+        self._in_stub = False
         for m in self.modules:
+            if not hasattr(m, "hmac_sha512"):
+                continue            # (the module may reach the PRF another way after a refactoring: see the hmac.new layer below)
             real = m.hmac_sha512
             self._saved.append((m, real))
 
-            def stub(key, msg, _real=real):
+            def stub(key=None, msg=None, _real=real, **kw):
                 out = self.plan(key, msg) if self.plan else None
                 substituted = out is not None
                 if out is None:
-                    out = _real(key=key, msg=msg)
+                    self._in_stub = True
+                    try:
+                        out = _real(key=key, msg=msg)
+                    finally:
+                        self._in_stub = False
                 self.calls.append((bytes(key), bytes(msg), bytes(out), substituted))
                 return out
             m.hmac_sha512 = stub
+        # second layer: code that calls hmac.new(..., sha512) itself (not through the module global) while executing
+        # inside the listed modules is served by the same plan.  The oracle never uses the hmac module.
+        modfiles = tuple(getattr(m, "__file__", "") or "" for m in self.modules)
+        real_new = _hmac.new
+        self._real_new = real_new
+
+        class _Fixed:
+            def __init__(self, out):
+                self._o = out
+                self.digest_size = 64
+
+            def digest(self):
+                return self._o
+
+            def hexdigest(self):
+                return self._o.hex()
+
+            def update(self, _m):
+                raise NotImplementedError("PRF stub: incremental update not modelled")
+
+        def new(key, msg=None, digestmod=""):
+            if self._in_stub or not self.plan or msg is None:
+                return real_new(key, msg, digestmod)
+            name = digestmod if isinstance(digestmod, str) else getattr(digestmod, "__name__", "")
+            if "sha512" not in name.lower():
+                return real_new(key, msg, digestmod)
+            # the call must come from one of the listed modules, directly or through a thin helper (<= 3 frames up)
+            f, hit = sys._getframe(1), False
+            for _ in range(3):
+                if f is None:
+                    break
+                if f.f_code.co_filename in modfiles:
+                    hit = True
+                    break
+                f = f.f_back
+            if not hit:
+                return real_new(key, msg, digestmod)
+            out = self.plan(key, msg)
+            if out is None:
+                return real_new(key, msg, digestmod)
+            self.calls.append((bytes(key), bytes(msg), bytes(out), True))
+            return _Fixed(out)
+        _hmac.new = new
         return self
 
     def __exit__(self, *exc):
+        import hmac as _hmac
         for m, real in self._saved:
             m.hmac_sha512 = real
         self._saved = []
+        _hmac.new = self._real_new
         return False
 
 
